@@ -11,8 +11,8 @@ import copy
 from hedmon.gen import annot
 from hedmon.oracle import hedparse
 
-CAT_COLS = ["trial_type", "response", "stim_file", "cond", "block", "stim-file", "Cond2", "resp-hand_2"]
-VAL_COLS = ["rt", "score", "contrast", "rt-2", "Score_B"]
+CAT_COLS = ["trial_type", "response", "stim_file", "cond", "block", "stim-file", "Cond2", "resp-hand_2", "10"]
+VAL_COLS = ["rt", "score", "contrast", "rt-2", "Score_B", "2"]     # (a name of digits only is a legal name)
 IGN_COLS = ["notes", "sample"]
 # (the one-letter keys and "n/" are pieces of the reserved key "n/a" and are ordinary keys themselves)
 CAT_KEYS = ["go", "stop", "left", "right", "k1", "k2", "3", "4.0", "a", "n", "n/", "/a"]
